@@ -70,6 +70,10 @@ func fnInfo(ctx *cmdContext, args map[string]any) (output respValue, err error) 
 
 	uptime := time.Since(started)
 
+	// the counters are updated by every connection
+	infoMu.Lock()
+	defer infoMu.Unlock()
+
 	data := map[string]any{}
 	data["run_id"] = info.run_id
 	data["tcp_port"] = ctx.cd.port
